@@ -147,10 +147,18 @@ def vrt_check(I, args, callee):
     c = args[0]
     msg = concrete_bytes(items_of(args[1])) or b'?'
     msg = msg.decode('utf-8', 'replace')
+    # a harness shared by several properties: an assertion of another property than the one under check must not end
+    # the path (it would hide later assertions of this property) - it is recorded and exploration goes on
+    pfx = I.cfg.get('msg_prefix')
+    foreign = bool(pfx) and not msg.startswith(pfx)
     if type(c) is not Sym:
         if not c:
             I.report('check', msg)
-            raise PathEnd('violation', msg)
+            if not foreign:
+                raise PathEnd('violation', msg)
+        return unit()
+    if foreign:
+        I.report('check', msg, z3.Not(c.e))
         return unit()
     I.require(c.e, 'check', msg, 'violation')
     return unit()
